@@ -28,7 +28,11 @@ type c05Case struct {
 	Negative      string    `json:"negative,omitempty"`
 	CrossFile     bool      `json:"cross_file"`
 	Overridden    bool      `json:"overridden"`
+	SkipInterp    bool      `json:"skip_interpolation,omitempty"` // every load of the case runs without interpolation
 }
+
+// c05SkipInterp is set for the duration of one case (cases of a process run one after the other)
+var c05SkipInterp bool
 
 // prefixPaths rewrites the relative local paths of a service fragment as seen from the project directory.
 func prefixPaths(svc map[string]any, dir string) map[string]any {
@@ -121,6 +125,11 @@ func genC05(t *rapid.T) c05Case {
 	svcs := target["services"].(map[string]any)
 	name := sortedKeys(svcs)[0]
 	svc := svcs[name].(map[string]any)
+	// text with `$` in it: what it loads to depends on the interpolation setting only, not on which file it sits in
+	if rapid.IntRange(0, 1).Draw(t, "dollars") == 0 {
+		svc["working_dir"] = "/w/$$HOME/${UNSET_IN_C05:-dflt}"
+		svc["stop_signal"] = "SIG$${X}"
+	}
 	// a service must keep its identity: no container_name clash etc. is needed, bases are only templates
 	nbases := rapid.SampledFrom([]int{1, 1, 2, 2, 3, 3, 4, 5, 6}).Draw(t, "nbases")
 	sp := &splitter{t: t, n: nbases + 1, used: map[string]int{}, noTags: true, carryRequired: true}
@@ -134,7 +143,7 @@ func genC05(t *rapid.T) c05Case {
 			parts[i] = map[string]any{}
 		}
 	}
-	cs := c05Case{Service: name}
+	cs := c05Case{Service: name, SkipInterp: rapid.IntRange(0, 3).Draw(t, "skipinterp") == 0}
 	files := make([]string, nbases+1) // file of base k; the last one is the main file
 	files[nbases] = "compose.yaml"
 	for k := 0; k < nbases; k++ {
@@ -283,7 +292,7 @@ func c05Load(files []memFile, main string) loadResult {
 	for i, f := range files {
 		placed[i] = memFile{Name: filepath.Join("proj", f.Name), Content: f.Content, Dir: f.Dir}
 	}
-	lc := loadCase{Files: placed, Main: []string{filepath.Join("proj", main)}, WorkDir: "proj", Opts: loadOpts{SkipConsistencyCheck: true}, Env: map[string]string{"SECRET_token": "t"}}
+	lc := loadCase{Files: placed, Main: []string{filepath.Join("proj", main)}, WorkDir: "proj", Opts: loadOpts{SkipConsistencyCheck: true, SkipInterpolation: c05SkipInterp}, Env: map[string]string{"SECRET_token": "t"}}
 	root, cleanup, err := lc.materialise()
 	if err != nil {
 		return loadResult{Err: err}
@@ -295,6 +304,11 @@ func c05Load(files []memFile, main string) loadResult {
 }
 
 func c05Check(c *Ctx, cs c05Case) *Failure {
+	c05SkipInterp = cs.SkipInterp
+	defer func() { c05SkipInterp = false }()
+	if cs.SkipInterp {
+		c.Label("skip-interpolation")
+	}
 	support := func() []memFile {
 		var out []memFile
 		for _, f := range cs.Distributed {
